@@ -106,37 +106,27 @@ Theorem C05_slice_shares : forall v e s st0 r st1, run (func_slice v e s) st0 = 
 Proof. exact slice_shares. Qed.
 Print Assumptions C05_slice_shares.
 
-(* ---- deleteEmpty (D6) ---- *)
-(* REFUTED for the function that is in the tree while [delete_empty_owned] (regenerated from /repo) is
-   false: `{"a":1,"b":[1]} | delpaths([["a"]])` writes the untouched sibling array [1], which the call
-   neither allocated nor was handed (witness DelProofs.delpaths_witness, by vm_compute) *)
-Theorem C05_delete_empty_writes_refuted :
-  delete_empty_owned = false -> ~ (forall v ps, writes_fresh (delpaths1 delete_empty_owned v ps)).
-Proof. exact wf_delpaths_tree_refuted. Qed.
-Print Assumptions C05_delete_empty_writes_refuted.
+(* ---- delpaths / deleteEmpty ---- *)
+(* The function in the tree (repaired by the fix "delpaths only sweeps containers it has copied": it returns at
+   once on a container the allocator does not own) keeps the discipline.  [delete_empty_owned] is regenerated
+   from /repo on every run; the proof is [wf_delpaths_tree eq_refl], which only type-checks while the flag
+   computes to true — a regression to the sweeping function breaks this obligation. *)
+Theorem C05_writes_fresh_delpaths : forall v ps, writes_fresh (delpaths1 delete_empty_owned v ps).
+Proof. exact wf_delpaths_current. Qed.
+Print Assumptions C05_writes_fresh_delpaths.
 
-(* PROVED for the repaired function (returns at once on a container the allocator does not own); it
-   applies to the tree as soon as the translator reports the repaired shape *)
-Theorem C05_delete_empty_writes_fresh_when_repaired :
-  delete_empty_owned = true -> forall v ps, writes_fresh (delpaths1 delete_empty_owned v ps).
-Proof. exact wf_delpaths_tree. Qed.
-Print Assumptions C05_delete_empty_writes_fresh_when_repaired.
-
-(* values_unchanged: at the value level the current function is harmless — every cell that existed before
-   the call is left EXACTLY as it was (each write stores what was there), hence every JSON value too *)
-Theorem C05_delete_empty_cells_unchanged : forall v ps h r s',
+(* REGRESSION EXAMPLES — about the function as it was BEFORE the fix (D6), not about the current code.
+   (1) it wrote into containers the call did not own: `{"a":1,"b":[1]} | delpaths([["a"]])` wrote the untouched
+       sibling array (witness by vm_compute);
+   (2) but every such write stored the value that was already there: every pre-existing cell stayed exactly
+       as it was (which is why no output ever differed and only the race detector saw it). *)
+Example C05_regression_old_deleteEmpty_writes_refuted : ~ (forall v ps, writes_fresh (delpaths1 false v ps)).
+Proof. exact wf_delpaths_refuted. Qed.
+Example C05_regression_old_deleteEmpty_cells_unchanged : forall v ps h r s',
   clean (below (length h)) h ->
   run (delpaths1 false v ps) (start h []) = Some (r, s') ->
   forall a, a < length h -> nth_error (hp s') a = nth_error h a.
 Proof. exact delpaths1_cells_unchanged. Qed.
-Print Assumptions C05_delete_empty_cells_unchanged.
-
-Theorem C05_delete_empty_values_unchanged : forall v ps h r s' n x,
-  clean (below (length h)) h ->
-  run (delpaths1 false v ps) (start h []) = Some (r, s') ->
-  vin (below (length h)) x -> abs n (hp s') x = abs n h x.
-Proof. exact delpaths1_values_unchanged. Qed.
-Print Assumptions C05_delete_empty_values_unchanged.
 
 (* ---- append_no_alias ---- *)
 (* an in-place append changes exactly one slot of the backing array, the one just past the accumulator's
